@@ -3,23 +3,52 @@ from fractions import Fraction
 import numpy as np
 
 from .poly import Poly, parr, frac, z3mod
-from .oracle import OAtom, OCons, osub, cons_z3, Z3Env, cons_eval
+from .oracle import OAtom, OCons, OCustom, osub, cons_z3, Z3Env, cons_eval
 from .usets import USet, inverse_exact
 from .cprog import CProg
 from .models import OracleRO, RealRO, p_name
 from .smt import HarnessError, fval
 
 
+import contextlib
+
+
+@contextlib.contextmanager
+def abstract_ipcone(record):
+    """Harness-side stub (part of the claim): IPCone.to_soc() is replaced by a recorder that
+    returns no constraints; the recorded call (left, right, beta) is given its power-cone meaning
+    |left|^N <= prod right^beta, right >= 0, which towers.tower_theorem establishes for the real
+    to_soc() output of every recorded beta."""
+    from rsome import lp
+    from .towers import form_rows
+    orig = lp.IPCone.to_soc
+
+    def stub(self):
+        record.append((form_rows(self.left)[0], form_rows(self.right), [int(b) for b in self.beta]))
+        return []
+    lp.IPCone.to_soc = stub
+    try:
+        yield
+    finally:
+        lp.IPCone.to_soc = orig
+
+
 class Compiled:
     """Both sides of one ro model description."""
 
-    def __init__(self, desc, style=None, primal=True):
+    def __init__(self, desc, style=None, primal=True, abstract_towers=False):
         self.o = OracleRO()
         desc(self.o)
         self.r = RealRO(style)
         desc(self.r)
-        self.formula = self.r.m.do_math(primal=primal)
+        self.pcalls = []
+        if abstract_towers:
+            with abstract_ipcone(self.pcalls):
+                self.formula = self.r.m.do_math(primal=primal)
+        else:
+            self.formula = self.r.m.do_math(primal=primal)
         self.cp = CProg(self.formula)
+        self.cp.pcones = list(self.pcalls)
         self.iface = self.r.interface(self.formula)
         self.iface['t'] = 0
         self.usets = {k: USet(v, self.o.znames) for k, v in self.o.sets.items()}
@@ -58,6 +87,8 @@ class Compiled:
 
 def split_pieces(c):
     """max-of-affine atoms become one row per piece; arrays one row per entry."""
+    if isinstance(c, OCustom):
+        return [c]
     if c.is_atom():
         a = c.expr
         if a.kind == 'max':
@@ -71,6 +102,8 @@ def split_pieces(c):
 
 def piece_zdeg(c, znames):
     zn = set(znames)
+    if isinstance(c, OCustom):
+        return False
     if c.is_atom():
         ps = list(c.expr.arg.reshape(-1)) + list(c.expr.off.reshape(-1))
     else:
@@ -97,10 +130,12 @@ def viol_terms(row, env, z3, eps=0):
     interface point denoted by env (after elimination of z)."""
     c = row['cons']
     U = row['uset']
-    if c.is_atom():
-        raise HarnessError('robust convex atoms are not part of the ro families')
-    (p,) = c.polys()
     epsv = z3.RealVal(str(eps))
+    if c.is_atom():
+        if row['robust']:
+            raise HarnessError('robust convex atoms are not part of the ro families')
+        return [z3.Not(z3.And(cons_z3(c, env, eps)))]
+    (p,) = c.polys()
     if not row['robust']:
         t = env.p(p)
         return [t > epsv] if c.sense == 'le' else [z3.Or(t > epsv, t < -epsv)]
@@ -198,8 +233,18 @@ def hold_terms(row, env, z3):
 
 def row_cols(row, cm):
     c = row['cons']
-    ps = (list(c.expr.arg.reshape(-1)) + list(c.expr.off.reshape(-1))) if c.is_atom() and not isinstance(c.expr.arg, list) \
-        else (c.polys() if not c.is_atom() else [])
+    if isinstance(c, OCustom):
+        ps = c.polys()
+    elif c.is_atom():
+        a = c.expr
+        ps = list(a.off.reshape(-1))
+        if isinstance(a.arg, list):
+            for piece in a.arg:
+                ps += list(parr(piece).reshape(-1))
+        else:
+            ps += list(a.arg.reshape(-1))
+    else:
+        ps = c.polys()
     names = set()
     for p in ps:
         names |= p.vars()
